@@ -209,8 +209,7 @@ def sym_unitary(g: Any, ts: list) -> Any:
     """The gate's own Python get_unitary on exact symbolic parameters -> sympy Matrix (or None
     when the class has no Python-level definition, i.e. it goes to the native evaluator)."""
     from vf import sym
-    mods = _gate_modules(g)
-    sym.patch_np(*mods)
+    mods = sym.patch_np(*_gate_modules(g))
     try:
         with sym.sym_mode(), native_model():
             U = g.get_unitary(ts)
@@ -222,8 +221,7 @@ def sym_unitary(g: Any, ts: list) -> Any:
 def sym_grad(g: Any, ts: list) -> Any:
     from vf import sym
     import numpy as np
-    mods = _gate_modules(g)
-    sym.patch_np(*mods)
+    mods = sym.patch_np(*_gate_modules(g))
     try:
         with sym.sym_mode(), native_model():
             G = g.get_grad(ts)
